@@ -8,7 +8,7 @@ CONSTANTS
  PatchCL = FALSE
  Mut = "none"
  RecordHist = FALSE
+ Monitor = TRUE
  FullProduct = FALSE
-VIEW View
-INVARIANTS ChunkingInvariance PassThrough CloseWaits SelectionRule FaultSurfaces NoSilentTruncation NotExistSurfaces NoPartialInput
+INVARIANTS ChunkingInvariance PassThrough CloseWaits SelectionRule FaultSurfaces NoSilentTruncation NotExistSurfaces NoPartialInput MonitorQuiet MonitorFinal
 PROPERTIES NoWriteAfterClose CloseReturned
